@@ -102,6 +102,10 @@ static Janet entry_getval(Janet env_entry) {
 
 /* Merge values from an environment into an existing lookup table. */
 void janet_env_lookup_into(JanetTable *renv, JanetTable *env, const char *prefix, int recurse) {
+    /* A prototype chain can be cyclic, stop when the walk runs into
+     * itself (Brent's cycle detection). */
+    JanetTable *mark = NULL;
+    size_t steps = 0, limit = 2;
     while (env) {
         for (int32_t i = 0; i < env->capacity; i++) {
             if (janet_checktype(env->data[i].key, JANET_SYMBOL)) {
@@ -123,6 +127,12 @@ void janet_env_lookup_into(JanetTable *renv, JanetTable *env, const char *prefix
             }
         }
         env = recurse ? env->proto : NULL;
+        if (env == mark) break;
+        if (++steps == limit) {
+            mark = env;
+            steps = 0;
+            limit *= 2;
+        }
     }
 }
 
